@@ -42,7 +42,7 @@ class Model:
             return ("ok", None)
         if k == "remove":
             _, name, prefix, regex = op
-            if name and name in self.m and name != core.NAMESERVER_NAME:
+            if name is not None and name in self.m and name != core.NAMESERVER_NAME:      # a simple map: the empty name is a name
                 del self.m[name]
                 return ("ok", 1)
             sel = []
@@ -137,6 +137,14 @@ def gen_op(rnd):
     return (k, t if how == 0 else None, t if how == 1 else None)
 
 
+# directed prefixes of the first histories: the empty name is a name; names containing NUL and a prefix ending in NUL
+DIRECTED = [
+    [("register", "", "PYRO:o@h:1", False, None), ("lookup", ""), ("remove", "", None, None), ("count",), ("register", "", "PYRO:o@h:2", True, ["t"]), ("remove", "", None, None)],
+    [("register", "a\x00b", "PYRO:o@h:1", False, None), ("register", "a\x00c", "PYRO:o@h:1", False, None), ("register", "ab", "PYRO:o@h:1", False, None),
+     ("list", "a\x00", None), ("remove", None, "a\x00", None), ("list", "a", None)],
+]
+
+
 class FailingConnect:
     """sqlite3.connect replacement (as seen by Pyro5.nameserver): the n-th execute() of the next connection raises"""
 
@@ -209,7 +217,7 @@ def main(mode):
             model = Model()
             hist = []
             for i in range(hlen):
-                op = gen_op(rnd)
+                op = DIRECTED[h][i] if h < len(DIRECTED) and i < len(DIRECTED[h]) else gen_op(rnd)
                 hist.append(op)
                 runs += 1
                 want = model.apply(op)
